@@ -70,18 +70,42 @@ def k1(ctx, res):
             res.check(not bad, f, f"default extracted into `{name}` is attached to every returned element",
                       detail={"returns_dropping_it": bad},
                       reason="a declared default is never dropped, and lands on the element that is returned")
+    res.floor("default_extractions", n, 2)
+
+
+@rule("K10", "the parser never removes a key from a schema dict it is visiting")
+def k10(ctx, res):
+    parser = ctx.prog.by_relpath.get("statham/schema/parser.py")
+    if parser is None:
+        raise AnalysisError("parser module vanished")
+    n_funcs = 0
     for f in sorted(parser.funcs.values(), key=lambda f: f.qualname):
-        sp = {p.name for p in f.params if p.name in ("schema", "definition", "sub_schema")}
+        sp = {p.name for p in f.params if p.name in ("schema", "definition", "sub_schema")
+              or (p.annotation is not None and norm(p.annotation).startswith("Dict[str"))}
+        if not sp:
+            continue
+        n_funcs += 1
+        # plain aliases of the schema parameter
+        for st in walk_own(f.body):
+            if isinstance(st, ast.Assign) and len(st.targets) == 1 and isinstance(st.targets[0], ast.Name) \
+                    and isinstance(st.value, ast.Name) and st.value.id in sp:
+                sp.add(st.targets[0].id)
+        clean = True
         for node in walk_own(f.body):
             if isinstance(node, ast.Call) and isinstance(node.func, ast.Attribute) and isinstance(node.func.value, ast.Name) \
                     and node.func.value.id in sp and node.func.attr in ("pop", "popitem", "clear"):
+                clean = False
                 res.violation(f, node, reason="the parser removes a key from the caller's schema dict: the same dict is visited again "
-                                               "(shared $ref targets, the definitions pass) and the second visit no longer sees the keyword")
+                                               "(shared $ref targets, the definitions pass, and - for cyclic documents - the re-entrant "
+                                               "visit whose RecursionError is the refusal) and that visit no longer sees the keyword")
             if isinstance(node, ast.Delete):
                 for t in node.targets:
                     if isinstance(t, ast.Subscript) and isinstance(t.value, ast.Name) and t.value.id in sp:
+                        clean = False
                         res.violation(f, node, reason="the parser deletes a key from the caller's schema dict (visited again later)")
-    res.floor("default_extractions", n, 2)
+        if clean:
+            res.ok(f, "no pop / popitem / clear / del on " + ", ".join(sorted(sp)), reason="keys of a visited schema dict are only read or overwritten")
+    res.floor("parser_functions_taking_a_schema", n_funcs, 12)
 
 
 def _mentions(e, name):
